@@ -18,6 +18,7 @@
   moov and mvex layouts (c10_layout.py);
 * `lu1`..`lu6`: streams whose STORED licence URLs cover the URL content classes (percent escapes, `+`,
   `& ; =`, place holders incl. `{kids}`, unicode, long, stray braces);
+* `sd`: DRM selection, PlayReady licence URL and version stored as *stream defaults*;
 * extra rows in the `key` table (computed and non-computed keys) for the ClearKey
   licence checks;
 * a multi-period stream `c10mps` (period 1 = bbb, period 2 = tears, period 3 = mk).
@@ -62,6 +63,10 @@ STORED_LA_URLS = {
     "lu6": "https://lic.example.com/k?kids={kids}&d={default_kid}",                                        # {kids}
 }
 
+# stream `sd`: options stored as *stream defaults* (Stream.defaults), not given in the URL
+SD_DEFAULTS = {"drmSelection": "playready-moov-pro,clearkey-cenc",
+               "playready": {"licenseUrl": "https://sd.example.com/lic?cfg={cfgs}&t=a%2Bb+c&amp;d", "version": 3.0}}
+
 _ENV = None
 
 
@@ -80,6 +85,7 @@ class Env:
         self._add_no_la_stream()
         self.layout_tracks = self._add_layout_stream()
         self._add_stored_la_streams()
+        self._add_defaults_stream()
         self._add_extra_keys()
         self.mps_periods = self._add_mps()
 
@@ -138,6 +144,24 @@ class Env:
                 st.playready_la_url = url
                 st.marlin_la_url = url.replace("https://", "ms3://").replace("http://", "ms3://")
                 m.db.session.commit()
+
+    def _add_defaults_stream(self):
+        self._add_multikey_stream("sd", {"v6_enc": [KID_A], "a1_enc": [KID_A]})
+        with self.app.ctx() as m:
+            st = m.Stream.get(directory="sd")
+            st.defaults = json.loads(json.dumps(SD_DEFAULTS))
+            m.db.session.commit()
+
+    def stream_defaults(self) -> dict[str, dict]:
+        """stream directory -> stored defaults (JSON column), read straight from the table"""
+        with self.app.ctx() as m:
+            rows = m.db.session.execute(m.db.text("SELECT directory, defaults FROM Stream")).all()
+        out = {}
+        for d, v in rows:
+            if isinstance(v, (str, bytes)):
+                v = json.loads(v)
+            out[d] = v or {}
+        return out
 
     def stored_la_urls(self) -> dict[str, str | None]:
         """stream directory -> stored PlayReady licence URL, read straight from the table"""
